@@ -15,6 +15,15 @@ open Gate Gate.C01
 def relay (intercepted : Bytes → Bool) (frames : List Bytes) : List Bytes :=
   frames.filter (fun f => !intercepted f)
 
+/-- `canForward`: a client packet is forwarded only if the player's connected server is set and its
+    connection phase is complete; otherwise it is dropped ("probably transitioning").  `up i` says whether
+    that holds when the `i`-th frame is dispatched. -/
+def relayGated (intercepted : Bytes → Bool) (up : Nat → Bool) : Nat → List Bytes → List Bytes
+  | _, [] => []
+  | i, f :: fs =>
+    if !intercepted f && up i then f :: relayGated intercepted up (i + 1) fs
+    else relayGated intercepted up (i + 1) fs
+
 /-- one leg end to end: bytes arriving on the inbound connection ↦ bytes leaving on the outbound one -/
 def relayWire (cfgIn : Cfg) (thrOut : Int) (D : Bytes → Bytes) (Z : Bytes → Option Bytes)
     (intercepted : Bytes → Bool) (fuel : Nat) (wireIn : Bytes) : Bytes :=
